@@ -33,7 +33,16 @@ pub fn ext_text(digest: &[u8], upper: bool) -> String {
 }
 
 fn offer() -> impl Strategy<Value = Vec<String>> {
-	let other = proptest::sample::select(vec!["h2", "http/1.1", "acme-tls/2", "acme-tls", "ACME-TLS/1", "spdy/3", "x"]).prop_map(|s| s.to_string());
+	// foreign protocol names, many of them one edit away from acme-tls/1
+	let near = ("[0-9a-z./ -]{1,3}", 0u8..6).prop_map(|(x, how)| match how {
+		0 => format!("acme-tls/1{x}"),
+		1 => format!("{x}acme-tls/1"),
+		2 => format!("acme-tls/{x}"),
+		3 => "acme-tls/1".to_uppercase(),
+		4 => "acme-tls/1"[..9 - (x.len() % 3)].to_string(),
+		_ => format!("acme-tls/1\u{0}{x}"),
+	}).prop_filter("must differ from acme-tls/1", |s| s != "acme-tls/1" && !s.is_empty() && s.len() < 200);
+	let other = prop_oneof![2 => proptest::sample::select(vec!["h2", "http/1.1", "acme-tls/2", "acme-tls", "ACME-TLS/1", "spdy/3", "x", "acme-tls/10", "acme-tls/1.1"]).prop_map(|s| s.to_string()), 3 => near];
 	prop_oneof![
 		2 => Just(vec!["acme-tls/1".to_string()]),
 		3 => (proptest::collection::vec(other.clone(), 1..4), any::<prop::sample::Index>()).prop_map(|(mut v, i)| { let p = i.index(v.len() + 1); v.insert(p, "acme-tls/1".into()); v }),
